@@ -144,7 +144,13 @@ var aQueries = []string{"", "", "", "?ref=main", "?ref=a&ref=b", "?depth=1", "?a
 	"?x=%zz", "?", "?ref=", "?sshkey=k", "?archive=tgz&archive=tgz", "?archive=tar.gz&checksum=md5:x", "?b=2&a=1", "?ref=a+b",
 	// a query that itself contains "//" or "://" (seed C06-e: the sub-path marker searched past the '?')
 	"?ref=release//2024", "?mirror=https://m.example.net/p.tgz", "?x=a//b", "?ref=a//b//c",
-	"?sshkey=x;ref=main", "?ref=a;ref=b", "?checksum=md5:x;x=1", "?depth=%zz", "?ref=main&", "?&ref=main", "?archive=tgz;checksum=x"}
+	"?sshkey=x;ref=main", "?ref=a;ref=b", "?checksum=md5:x;x=1", "?depth=%zz", "?ref=main&", "?&ref=main", "?archive=tgz;checksum=x",
+	// another argument whose RAW text contains "archive=tar.gz" (as the tail of its key, or inside its value: a
+	// nested URL / query) BEFORE the real archive argument, and the same pairs the other way round: the
+	// normalisation of the archive argument must hit the real one, so that printing is idempotent (seed C06-h)
+	"?src-archive=tar.gz&archive=tar.gz", "?archive=tar.gz&src-archive=tar.gz", "?from=/dl/pkg?archive=tar.gz&archive=tar.gz",
+	"?mirror=https://m.example.net/p?archive=tar.gz&archive=tar.gz", "?xarchive=tar.gz&archive=tar.gz&z=1", "?note=archive=tar.gz&archive=tar.gz",
+	"?src-archive=tar.gz&archive=tgz", "?archive=tar.gz&from=/dl/pkg?archive=tar.gz"}
 var aFrags = []string{"", "", "", "#frag", "#a b", "#a%20b"}
 var aTypes = []string{"", "", "", "git::", "GIT::", "https::", "http::", "hg::", "git::git::", "Git::", "s3::", "::"}
 var aSchemes = []string{"https://", "https://", "HTTPS://", "http://", "ssh://", "git://", "file://", "", "https:/", "Ssh://"}
@@ -155,6 +161,9 @@ var aSubs = []string{"", "", "", "//sub", "//a/b", "//a/../b", "//.", "//a//b", 
 var aWhole = []string{"github.com/org/repo", "github.com/org/repo/sub/dir", "github.com/org", "gitlab.com/org/repo.git", "gitlab.com/org/repo/a/b", "github.com/org/repo.git//x",
 	"hashicorp/subnets/cidr", "example.com/foo/bar/baz//sub", "./a", "../b", ".", "./.", "..", "./a/../b", "", " ./a", "github.com/", "github.com/o/r?ref=x", "gitlab.com/o/r/s/t?ref=y",
 	"hashicorp/subnets/cidr//a/b/../c", "example.com/foo/bar/baz@1.0.0//beep", "foo/bar/baz@1.2.3", "foo/bar/baz@0.0.0-a//x", "./a:b", ".\\a", "a/b", "../", "./",
+	// pinned versions whose pre-release / build identifiers have upper-case letters: identifiers are case
+	// sensitive, the version text round-trips byte for byte (seed C17-h)
+	"foo/bar/baz@1.0.0-RC1", "example.com/foo/bar/baz@2.0.0-Beta.2+Build.7//beep", "foo/bar/baz@1.0.0-rc1", "hashicorp/subnets/cidr@1.2.3+Linux.AMD64//m",
 	// sub-paths with bytes that are not valid UTF-8 (a Latin-1 name, a lone 0xff, a truncated sequence, an
 	// overlong '/'): outside the model's domain (oracle only); every non-local route must refuse them (seed C11-g)
 	"hashicorp/subnets/cidr//caf\xe9", "example.com/foo/bar/baz@1.0.0//mod\xff", "foo/bar/baz@1.2.3//a/\xc3/b", "github.com/org/repo//\xc0\xaf", "gitlab.com/org/repo/caf\xe9",
@@ -212,6 +221,107 @@ func genValidRemote(r *Rng) string {
 		return "https://example.com/download" + sub + r.Pick([]string{"?archive=tgz", "?archive=tar.gz", "?archive=tgz&x=y"})
 	default:
 		return r.Pick([]string{"github.com", "gitlab.com"}) + "/org/repo" + r.Pick([]string{"", ".git"}) + r.Pick([]string{"", "/sub/dir"})[0:0] + r.Pick([]string{"", "?ref=main"})
+	}
+}
+
+// a grammar of documented-valid remote addresses with ONE rule broken: the sub-path portion (everything after
+// the first "//" that follows the host part, up to the query) has an empty, '.' or '..' segment because it
+// contains a second "//", begins with a third '/' or ends in "//". Every parser must refuse them, and so must
+// ParseRemotePackage (the string has a sub-path portion). Returns the address
+// (seed C07-h: the delimiter searched from the right, so that only the text after the LAST "//" was validated)
+func genMustRejectRemote(r *Rng) string {
+	bad := r.Pick([]string{"modules//vpc", "/modules", "modules//", "..//vpc", "modules/../..//vpc", "a//b//c", ".//m", "m//.", "m//..", "/m//n", "a/b//", "//m"})
+	switch r.Intn(5) {
+	case 0, 1:
+		return "git::" + r.Pick([]string{"https", "ssh"}) + "://" + r.Pick([]string{"example.com", "example.com:2222", "git.example.org"}) + r.Pick([]string{"/repo.git", "/a/b.git", "/repo"}) + "//" + bad + r.Pick([]string{"", "", "?ref=main"})
+	case 2:
+		return "https://example.com/download//" + bad + r.Pick([]string{"?archive=tgz", "?archive=tar.gz"})
+	case 3:
+		// the archive suffix after the extra "//" (judged on the package path, this address has none)
+		if strings.HasSuffix(bad, "/") || strings.HasSuffix(bad, ".") {
+			return "https://" + r.Pick([]string{"example.com", "dl.example.org:8443"}) + r.Pick([]string{"/foo.tar.gz", "/a/b.tgz"}) + "//" + bad
+		}
+		return "https://example.com/pkg//" + bad + r.Pick([]string{".tgz", ".tar.gz"})
+	default:
+		return r.Pick([]string{"github.com", "gitlab.com"}) + "/org/repo" + r.Pick([]string{"", ".git"}) + "//" + bad + r.Pick([]string{"", "?ref=main"})
+	}
+}
+
+// checkMustReject: s is a remote address whose sub-path portion breaks the segment rule; every route refuses it
+func checkMustReject(rep *Report, s string) {
+	// the portion as written: after the first "//" behind the scheme's own "://", up to the query
+	body := s
+	if i := strings.Index(body, "?"); i >= 0 {
+		body = body[:i]
+	}
+	off := 0
+	if i := strings.Index(body, "://"); i >= 0 {
+		off = i + 3
+	}
+	j := strings.Index(body[off:], "//")
+	if j < 0 {
+		return
+	}
+	portion := body[off+j+2:]
+	seg, isBad := "", false
+	for _, sg := range strings.Split(portion, "/") {
+		if sg == "" || sg == "." || sg == ".." {
+			seg, isBad = sg, true
+			break
+		}
+	}
+	if !isBad {
+		return
+	}
+	in := addrIn{How: "must-reject", Input: s}
+	describe := func(v sourceaddrs.RemoteSource) string {
+		return fmt.Sprintf("as package URL path %q + sub-path %q, printing %q", v.Package().URL().Path, v.SubPath(), v.String())
+	}
+	report := func(parser, got string) {
+		rep.AddOracle(OracleFailure{Property: "C07", Lane: "addr", What: fmt.Sprintf("%s(%q) accepts a remote address whose sub-path portion %q has the segment %q (a doubled, tripled or trailing separator): %s", parser, s, portion, seg, got), Input: in})
+	}
+	if v, err := parseRemoteSafe(rep, s); err == nil {
+		report("ParseRemoteSource", describe(v))
+	}
+	if v, err := parseSourceSafe(rep, s); err == nil {
+		got := "as " + v.String()
+		if rv, ok := v.(sourceaddrs.RemoteSource); ok {
+			got = describe(rv)
+		}
+		report("ParseSource", got)
+	}
+	if v, err := parseFinalSafe(rep, s); err == nil {
+		got := "as " + v.String()
+		if rv, ok := v.(sourceaddrs.RemoteSource); ok {
+			got = describe(rv)
+		}
+		report("ParseFinalSource", got)
+	}
+	if v, err := sourceaddrs.ParseRemotePackage(s); err == nil {
+		report("ParseRemotePackage", fmt.Sprintf("as the package %q although the address has a sub-path portion", v.String()))
+	}
+}
+
+var finalRegistryText = regexp.MustCompile(`^(.+)@([^/]+)(//(.+))?$`)
+
+// checkFinalVersionText: rf was parsed from the text s (package@version[//sub-path]). The selected version is the
+// one the text names: identifiers of a pre-release / build part are case sensitive, so a version text in
+// canonical spelling comes back byte for byte (seed C17-h: the text lower-cased on the way in)
+func checkFinalVersionText(rep *Report, lane, parser, s string, rf sourceaddrs.RegistrySourceFinal, in interface{}) {
+	m := finalRegistryText.FindStringSubmatch(s)
+	if m == nil {
+		return
+	}
+	text := m[2]
+	want, err := versions.ParseVersion(text)
+	if err != nil {
+		return
+	}
+	got := rf.SelectedVersion()
+	if got != want || (want.String() == text && got.String() != text) {
+		rep.AddOracle(OracleFailure{Property: "C06", Lane: lane, What: fmt.Sprintf("%s(%q) pins version %q; the text names version %q (the version text of a final registry address does not round-trip byte for byte; it prints as %q)", parser, s, got.String(), text, rf.String()), Input: in})
+		// the same failure read as C17: an already-versioned registry source means exactly that version
+		rep.AddOracle(OracleFailure{Property: "C17", Lane: lane, What: fmt.Sprintf("%s(%q) is a final registry source for version %q, not for the version %q it was written with", parser, s, got.String(), text), Input: in})
 	}
 }
 
@@ -293,6 +403,7 @@ type addrReplay struct {
 	strs  []string    // address strings (through every parser route and the derived values)
 	makes [][4]string // constructor triples + the scheme set directly on the URL value ("" = as parsed)
 	valid []string    // strings of the documented-valid stream
+	reject []string   // strings of the must-reject stream
 }
 
 var (
@@ -392,6 +503,9 @@ func loadAddrReplay(cfg *Config, rep *Report) *addrReplay {
 		case obj.Input != nil && obj.How != nil && *obj.How == "valid-grammar":
 			ar.valid = append(ar.valid, *obj.Input)
 			ar.strs = append(ar.strs, *obj.Input)
+		case obj.Input != nil && obj.How != nil && *obj.How == "must-reject":
+			ar.reject = append(ar.reject, *obj.Input)
+			ar.strs = append(ar.strs, *obj.Input)
 		case obj.Input != nil:
 			ar.strs = append(ar.strs, *obj.Input)
 			if obj.With != nil {
@@ -433,7 +547,9 @@ func init() {
 		// corpus first: witnesses of the recorded findings and past disagreements
 		for _, s := range []string{"git::https://example.com/foo.git//dir with space", "git::https://example.com/a%2Fb.git//sub", "git::https://h/x.git//sub#frag",
 			"git::https://h/x.git#frag", "https://h/dl/?archive=tgz", "example.com/foo/bar/baz//@sub", "git::https://h/a b.git", "./a", "../", "https://example.com/foo.tar.gz?checksum=",
-			"https://example.com/foo.tar.gz?checksum=&checksum=sha256:x", "git::https://user@example.com/x.git", "GIT::HTTPS://example.com/x.git?ref=a&ref=b"} {
+			"https://example.com/foo.tar.gz?checksum=&checksum=sha256:x", "git::https://user@example.com/x.git", "GIT::HTTPS://example.com/x.git?ref=a&ref=b",
+			"https://example.com/pkg?src-archive=tar.gz&archive=tar.gz", "https://example.com/dl//m?from=/dl/pkg?archive=tar.gz&archive=tar.gz",
+			"foo/bar/baz@1.0.0-RC1", "example.com/foo/bar/baz@2.0.0-Beta.2+Build.7//beep"} {
 			seen[s] = true
 			inputs = append(inputs, s)
 		}
@@ -453,6 +569,24 @@ func init() {
 		for i := 0; i < cfg.N/10; i++ {
 			s := genValidRemote(r)
 			valid = append(valid, s)
+			if !seen[s] {
+				seen[s] = true
+				inputs = append(inputs, s)
+			}
+		}
+		// remote addresses with one rule broken in the sub-path portion (must be refused by every route)
+		var reject []string
+		nReplayReject := 0
+		if ar != nil {
+			reject = append(reject, ar.reject...)
+			nReplayReject = len(reject)
+		}
+		reject = append(reject, "git::https://example.com/repo.git//modules//vpc", "git::https://example.com/repo.git///modules", "git::https://example.com/repo.git//modules//",
+			"git::https://example.com/repo.git//..//vpc", "github.com/org/repo//modules//vpc", "https://example.com/pkg//modules//vpc?archive=tgz")
+		for i := 0; i < cfg.N/12; i++ {
+			reject = append(reject, genMustRejectRemote(r))
+		}
+		for _, s := range reject {
 			if !seen[s] {
 				seen[s] = true
 				inputs = append(inputs, s)
@@ -544,6 +678,22 @@ func init() {
 				rep.EndReplay()
 			}
 			rep.Count("valid-grammar")
+		}
+		// the must-reject class (C07: an accepted address has a sub-path without empty, '.' or '..' segments)
+		rejSeen := map[string]bool{}
+		for i, s := range reject {
+			if rejSeen[s] {
+				continue
+			}
+			rejSeen[s] = true
+			if i < nReplayReject {
+				rep.BeginReplay()
+			}
+			checkMustReject(rep, s)
+			if i < nReplayReject {
+				rep.EndReplay()
+			}
+			rep.Count("must-reject:sub-path-portion")
 		}
 		// ---- MakeRemoteSource(type, URL, sub-path) ----
 		// (type, URL, sub-path, scheme): a non-empty scheme is set directly on the url.URL value after
@@ -660,6 +810,13 @@ func init() {
 			if err == nil {
 				checkRoundTripFinal(rep, y, fmt.Sprintf("ParseFinalSource(%q)", s), addrFrom{s: s})
 				checkNotUTF8Sub(rep, y, fmt.Sprintf("ParseFinalSource(%q)", s), addrFrom{s: s})
+				if rf, ok := y.(sourceaddrs.RegistrySourceFinal); ok {
+					rep.Count("final-registry:version-text-checked")
+					checkFinalVersionText(rep, "addr", "ParseFinalSource", s, rf, addrFrom{s: s}.in(fmt.Sprintf("ParseFinalSource(%q)", s)))
+					if rf2, err := sourceaddrs.ParseFinalRegistrySource(s); err == nil {
+						checkFinalVersionText(rep, "addr", "ParseFinalRegistrySource", s, rf2, addrFrom{s: s}.in(fmt.Sprintf("ParseFinalRegistrySource(%q)", s)))
+					}
+				}
 			}
 			if !utf8.ValidString(s) {
 				// outside the model's domain: judged by the oracles only (the kind-specific parsers too)
